@@ -38,8 +38,8 @@ structure Dial where
   deriving Repr, DecidableEq, Inhabited
 
 inductive Ev where
-  | dial (i : Nat)                       -- a TCP connection was opened
-  | adopt (i : Nat)                      -- the caller's pre-initialised socket is used
+  | dial (i : Nat) (u : UrlParts)        -- a TCP connection was opened (for the URL with parts `u`)
+  | adopt (i : Nat) (u : UrlParts)       -- the caller's pre-initialised socket is used
   | plain (i : Nat) (e : IoEv)           -- CONNECT exchange with the proxy
   | wrap (i : Nat) (p : Policy) (ok : Bool)
   | io (i : Nat) (e : IoEv)              -- the WebSocket handshake
@@ -72,6 +72,13 @@ def tunnel (s : Sock) (host : Str) (port : Nat) (auth : Option (Str × Option St
       if h.status = some (Int.ofNat Gen.tunnelOkStatus) then (.ok (), s2, io)
       else (.error .proxy, s2, io)
 
+/-- `if need_tunnel: sock = _tunnel(sock, hostname, port, auth)` -/
+def tunnelStep (pd : ProxyDec) (d : Dial) (i : Nat) (u : UrlParts) : Except HExn Unit × Sock × List Ev :=
+  if pd.tunnel then
+    match tunnel d.sock u.host u.port pd.auth with
+    | (r, s, io) => (r, s, io.map (Ev.plain i))
+  else (.ok (), d.sock, [])
+
 /-- `_http.connect(url, options, proxy, socket)` (HTTP proxy or none; SOCKS is not modelled). -/
 def httpConnect (env : Env) (d : Dial) (i : Nat) (url : Str) (userSock : Option Sock) :
     Except HExn (Sock × UrlParts) × List Ev :=
@@ -79,28 +86,22 @@ def httpConnect (env : Env) (d : Dial) (i : Nat) (url : Str) (userSock : Option 
   | .error e => (.error e, [])
   | .ok u =>
     match userSock with
-    | some s => (.ok (s, u), [.adopt i])
+    | some s => (.ok (s, u), [.adopt i u])
     | none =>
       match d.addr with
       | .error e => (.error e, [])
       | .ok _ =>
-        let pd := env.proxy u
-        let (r1, s1, ev1) : Except HExn Unit × Sock × List Ev :=
-          if pd.tunnel then
-            match tunnel d.sock u.host u.port pd.auth with
-            | (r, s, io) => (r, s, io.map (Ev.plain i))
-          else (.ok (), d.sock, [])
-        match r1 with
-        | .error e => (.error e, .dial i :: ev1 ++ [.close i])
-        | .ok _ =>
+        match tunnelStep (env.proxy u) d i u with
+        | (.error e, _, ev1) => (.error e, .dial i u :: ev1 ++ [.close i])
+        | (.ok _, s1, ev1) =>
           if u.secure then
             match Tls.sslSocket env.sslopt env.tlsEnv u.host with
-            | .error e => (.error e, .dial i :: ev1 ++ [.close i])
+            | .error e => (.error e, .dial i u :: ev1 ++ [.close i])
             | .ok p =>
               match d.wrap with
-              | .error e => (.error e, .dial i :: ev1 ++ [.wrap i p false, .close i])
-              | .ok _ => (.ok (s1, u), .dial i :: ev1 ++ [.wrap i p true])
-          else (.ok (s1, u), .dial i :: ev1)
+              | .error e => (.error e, .dial i u :: ev1 ++ [.wrap i p false, .close i])
+              | .ok _ => (.ok (s1, u), .dial i u :: ev1 ++ [.wrap i p true])
+          else (.ok (s1, u), .dial i u :: ev1)
 
 /-- the fields of the `WebSocket` object that `connect` touches. -/
 structure Obj where
